@@ -89,6 +89,8 @@ type ChildResult struct {
 	Error     string       `json:"error,omitempty"`
 	RootFatal string       `json:"root_fatal,omitempty"`
 	Names     []string     `json:"names"` // the names RunT gave the subtests, in the order of Params.Files
+	// SetupDirs: every work directory handed to Params.Setup, in the order of the calls
+	SetupDirs []string `json:"setup_dirs,omitempty"`
 	// Prior: the RunT calls the process made before this one (deadline jobs with a history)
 	Prior []*ChildResult `json:"prior,omitempty"`
 	// SiblingSnap: clean-up jobs: the sibling's work directory as it was after the script under test had
@@ -485,7 +487,7 @@ func runBatchChild(job *Job, deadline time.Time) *ChildResult {
 		byName[s.Name] = s
 		dir := filepath.Join(job.Dir, "scripts", strconv.Itoa(i))
 		os.MkdirAll(dir, 0o777)
-		f := filepath.Join(dir, s.fileBase()+".txt")
+		f := filepath.Join(dir, s.fileName())
 		if err := os.WriteFile(f, s.archiveIn(job.Dir, job.Gated), 0o666); err != nil {
 			res.Error = err.Error()
 			return res
@@ -524,6 +526,9 @@ func runBatchChild(job *Job, deadline time.Time) *ChildResult {
 	}
 	p.Setup = func(env *testscript.Env) error {
 		name := strings.TrimPrefix(filepath.Base(env.WorkDir), "script-")
+		col.mu.Lock()
+		res.SetupDirs = append(res.SetupDirs, env.WorkDir)
+		col.mu.Unlock()
 		s := byName[name]
 		if s == nil {
 			return fmt.Errorf("harness: unknown script %q", name)
